@@ -452,6 +452,53 @@ def inline_new_callees(fn, fns, is_new, max_inlines=24):
     return Fn(fn.crate, d), done
 
 
+def _moved_items(texts):
+    """Types / functions that were moved to another module of their crate since the reference tree: {new path prefix: old
+    path prefix}. A function that is not on the reference list while a listed function of the same crate with the same
+    `Type::method` (or, for a free function, the same name) is gone, uniquely both ways, is that function under its new
+    address; the rules keep addressing it by the old one."""
+    import re as _re
+    bp = os.path.join(os.path.dirname(os.path.abspath(__file__)), "baseline_fns.json")
+    if os.environ.get("VERIF_NO_INLINE") or not os.path.exists(bp):
+        return {}
+    with open(bp) as fh:
+        base = set(json.load(fh))
+    cur = set()
+    for t in texts.values():
+        for d in json.loads(t)["fns"]:
+            p = d.get("path", "")
+            if "{closure" not in p:
+                cur.add(p)
+    crates_here = {p.split("::")[0].lstrip("<") for p in cur}
+    missing = {p for p in base - cur if p.split("::")[0].lstrip("<") in crates_here and not p.startswith("<")}
+    new = {p for p in cur - base if not p.startswith("<")}
+    if not missing or not new:
+        return {}
+
+    def key(p, n):
+        segs = p.split("::")
+        return (segs[0], "::".join(segs[-n:]))
+    out = {}
+    for n in (2, 1):
+        mk, nk = {}, {}
+        for p in missing:
+            mk.setdefault(key(p, n), []).append(p)
+        for p in new:
+            nk.setdefault(key(p, n), []).append(p)
+        for k, ps in nk.items():
+            if len(ps) == 1 and len(mk.get(k, [])) == 1:
+                a, b = ps[0], mk[k][0]
+                if a.count("::") < n or b.count("::") < n:
+                    continue
+                # the part in front of the method (n == 2: the type's path) or of the function name
+                pa, pb = a.rsplit("::", 1)[0], b.rsplit("::", 1)[0]
+                if n == 2 and pa != pb and pa.split("::")[-1] == pb.split("::")[-1]:
+                    out[pa] = pb
+                elif n == 1 and pa != pb and a not in out and not any(a.startswith(x + "::") for x in out):
+                    out[a] = b
+    return out
+
+
 class Facts:
     def __init__(self, directory, inline=True):
         self.dir = directory
@@ -462,11 +509,17 @@ class Facts:
         self.fns_all = {}  # path -> [Fn]
         self.adts = {}
         self.impls = []
+        texts = {}
         for name in sorted(os.listdir(directory)):
-            if not name.endswith(".json"):
-                continue
-            with open(os.path.join(directory, name)) as fh:
-                d = json.load(fh)
+            if name.endswith(".json"):
+                with open(os.path.join(directory, name)) as fh:
+                    texts[name] = fh.read()
+        self.moved = _moved_items(texts) if inline is not None else {}
+        for name in sorted(texts):
+            t = texts[name]
+            for new_, old_ in sorted(self.moved.items(), key=lambda kv: -len(kv[0])):
+                t = t.replace(new_, old_)
+            d = json.loads(t)
             self.crates[d["crate"]] = d
             for f in d["fns"]:
                 fn = Fn(d["crate"], f)
